@@ -177,7 +177,19 @@ class SnmpSession(object):
     ) -> None:
         """Asynchronous context manager exit."""
 
-    async def _send(self, sender: Callable[[], None]) -> None:
+    @staticmethod
+    def _oids_are_valid(oids: Iterable[str]) -> bool:
+        """Check the oids are well-formed, nothing is sent."""
+        for oid in oids:
+            try:
+                GetIter(oid)
+            except ValueError:
+                return False
+        return True
+
+    async def _send(
+        self, sender: Callable[[], None], oids: Iterable[str] = ()
+    ) -> None:
         """
         Execute callable when socket in writable.
 
@@ -194,8 +206,10 @@ class SnmpSession(object):
 
         if self._deferred_user and not self._discovering:
             # Used without entering the session:
-            # run the deferred engine id discovery first
-            await self.refresh()
+            # run the deferred engine id discovery first,
+            # unless the request is going to be refused anyway
+            if self._oids_are_valid(oids):
+                await self.refresh()
         if self._policer:
             await self._policer.wait()
         try:
@@ -260,7 +274,7 @@ class SnmpSession(object):
         def sender() -> None:
             self._sock.send_get(oid)
 
-        await self._send(sender)
+        await self._send(sender, (oid,))
         return await self._recv(self._sock.recv_get)
 
     async def get_many(
@@ -288,10 +302,12 @@ class SnmpSession(object):
             SnmpError: On other SNMP-related errors.
         """
 
-        def sender() -> None:
-            self._sock.send_get_many(list(oids))
+        oids = list(oids)
 
-        await self._send(sender)
+        def sender() -> None:
+            self._sock.send_get_many(oids)
+
+        await self._send(sender, oids)
         return await self._recv(self._sock.recv_get_many)
 
     def getnext(
